@@ -255,23 +255,28 @@ func Body(t *tape.Tape, label string, maxLen int, safe bool) []byte {
 	return out
 }
 
-// SafeBody rewrites a body so that no EOL is directly followed by a digit or
-// by one of the scan markers, and the body does not contain EOL+"endstream".
+// SafeBody rewrites a body so that no line (the body itself starts a line,
+// after "stream" EOL) begins with something the sequential scanner treats as
+// a marker: an object header "N G obj" (excluded by digits at line start) or
+// the keywords xref, trailer, startxref, %%EOF.  EOL bytes and line-initial
+// "endstream"/"endobj" stay allowed, as the property's quantifier allows them.
 func SafeBody(b []byte) []byte {
 	out := append([]byte(nil), b...)
+	lineStart := true
 	for i := 0; i < len(out); i++ {
-		if out[i] == '\r' || out[i] == '\n' {
-			out[i] = '.'
+		c := out[i]
+		if lineStart {
+			if c >= '0' && c <= '9' {
+				out[i] = '_'
+			} else {
+				for _, m := range []string{"xref", "trailer", "startxref", "%%EOF"} {
+					if bytes.HasPrefix(out[i:], []byte(m)) {
+						out[i] = '_'
+					}
+				}
+			}
 		}
-	}
-	// also a body that starts with a marker would follow "stream\n"
-	for _, m := range []string{"xref", "trailer", "startxref", "%%EOF", "endstream"} {
-		if bytes.HasPrefix(out, []byte(m)) {
-			out[0] = '_'
-		}
-	}
-	if len(out) > 0 && out[0] >= '0' && out[0] <= '9' {
-		out[0] = '_'
+		lineStart = c == '\r' || c == '\n'
 	}
 	return out
 }
